@@ -27,6 +27,7 @@ import (
 	"runtime/debug"
 	"strings"
 	"sync/atomic"
+	"syscall"
 	"time"
 
 	"src.elv.sh/pkg/eval"
@@ -309,12 +310,13 @@ func (r *runner) eval(code string, cancelAt int, inflight time.Duration) result 
 type VCase struct {
 	Shape Shape  `json:"shape"`
 	Intr  bool   `json:"intr"`
+	PFail bool   `json:"pfail"`
 	Exc   bool   `json:"exc"`
 	Fd    int    `json:"fd"`
 	Go    int    `json:"go"`
 	Bg    bool   `json:"bg"`
 	Code  string `json:"code"`
-	How   string `json:"how"` // plain | start:k | inflight
+	How   string `json:"how"` // plain | start:k | inflight | pipefail
 	N     int    `json:"n"`   // number of evaluations summarised (worst projection kept)
 }
 
@@ -323,6 +325,57 @@ type variant struct {
 	cancelAt int
 	inflight time.Duration
 	long     bool
+	pipefail bool // the second pipe of the top pipeline cannot be created (descriptor limit)
+}
+
+const keyPipeFail = "leak:pipe-creation-failure"
+
+// withFdLimit runs f with the soft RLIMIT_NOFILE lowered so that exactly `spare` descriptor numbers
+// are free; the limit is restored before anything is measured.
+func withFdLimit(spare int, f func()) error {
+	ents, err := os.ReadDir("/proc/self/fd")
+	if err != nil {
+		return err
+	}
+	used := map[int]bool{}
+	for _, e := range ents {
+		var n int
+		if _, err := fmt.Sscanf(e.Name(), "%d", &n); err == nil {
+			used[n] = true
+		}
+	}
+	limit, free := 0, 0
+	for free < spare {
+		if !used[limit] {
+			free++
+		}
+		limit++
+	}
+	var old syscall.Rlimit
+	if err := syscall.Getrlimit(syscall.RLIMIT_NOFILE, &old); err != nil {
+		return err
+	}
+	lim := old
+	lim.Cur = uint64(limit)
+	if err := syscall.Setrlimit(syscall.RLIMIT_NOFILE, &lim); err != nil {
+		return err
+	}
+	defer syscall.Setrlimit(syscall.RLIMIT_NOFILE, &old)
+	f()
+	return nil
+}
+
+// pipeFailApplies: three forms at the top, the first of which needs no descriptor of its own.
+func pipeFailApplies(s Shape) bool {
+	if len(s) != 3 || len(s[0].Body.Sub) > 0 {
+		return false
+	}
+	for _, k := range s[0].Redirs {
+		if k == "fileout" || k == "filein" || k == "filefail" {
+			return false
+		}
+	}
+	return true
 }
 
 // evaluateN evaluates one program n times under one variant and returns the recorded case (the worst
@@ -338,7 +391,19 @@ func evaluateN(c *lib.Ctx, r *runner, rd *renderer, shape Shape, v variant, n in
 	old := debug.SetGCPercent(-1) // finalizers must not close a leaked file behind our back
 	defer debug.SetGCPercent(old)
 	for i := 0; i < n; i++ {
-		res := r.eval(code, v.cancelAt, v.inflight)
+		var res result
+		if v.pipefail {
+			// room for exactly one pipe (two descriptors): the pipe after the second form cannot be created
+			if err := withFdLimit(2, func() { res = r.eval(code, 0, 0) }); err != nil {
+				return vc, lib.Infra("cannot lower RLIMIT_NOFILE: %v", err)
+			}
+			if res.Err == nil || !strings.Contains(res.Err.Error(), "failed to create pipe") {
+				return vc, lib.Infra("%q under the descriptor limit: expected the pipe creation to fail, got %v", vc.Code, res.Err)
+			}
+			vc.PFail = true
+		} else {
+			res = r.eval(code, v.cancelAt, v.inflight)
+		}
 		c.AddEvals(1)
 		if res.Timeout {
 			return vc, lib.Infra("evaluation of %q (%s) did not return within 30 s", vc.Code, v.how)
@@ -373,7 +438,7 @@ func shapeKey(s Shape) string {
 }
 
 func mcCfg(maxForms, level int, emit bool) []byte {
-	s := fmt.Sprintf("CONSTANTS MaxForms = %d Level = %d Emitting = %s\nSPECIFICATION Spec\nINVARIANT CleanAtReturn\nINVARIANT NoOrphans\nINVARIANT OutcomeOK\n",
+	s := fmt.Sprintf("CONSTANTS MaxForms = %d Level = %d PipeFail = TRUE Emitting = %s\nSPECIFICATION Spec\nINVARIANT CleanAtReturn\nINVARIANT NoOrphans\nINVARIANT OutcomeOK\n",
 		maxForms, level, map[bool]string{true: "TRUE", false: "FALSE"}[emit])
 	if emit {
 		s += "INVARIANT Emit\n"
@@ -401,7 +466,7 @@ func run(c *lib.Ctx) error {
 	}
 
 	// ---- M + G: the model's shapes
-	maxForms, level := 2, 1
+	maxForms, level := 3, 1
 	if c.Thorough() {
 		maxForms, level = 3, 2
 	}
@@ -452,6 +517,9 @@ func run(c *lib.Ctx) error {
 		}
 		if hasKind(g.Shape, "sleep") {
 			vs = append(vs, variant{how: "inflight", inflight: 500 * time.Microsecond, long: true})
+		}
+		if pipeFailApplies(g.Shape) {
+			vs = append(vs, variant{how: "pipefail", pipefail: true})
 		}
 		for _, v := range vs {
 			n := N
@@ -523,7 +591,11 @@ func judge(c *lib.Ctx, dir string, cases []VCase) error {
 		if why == "path" {
 			return lib.Infra("%q (%s): raised=%v contradicts the model's outcome for the shape: the generator does not render the intended path", vc.Code, vc.How, vc.Exc)
 		}
-		c.Reject("leak:"+vc.How+":"+vc.Code, fmt.Sprintf("%s (%s): %+d file descriptors, %+d goroutines above the baseline after the evaluation returned (settled)", vc.Code, vc.How, vc.Fd, vc.Go), vc)
+		key := "leak:" + vc.How + ":" + vc.Code
+		if vc.PFail {
+			key = keyPipeFail
+		}
+		c.Reject(key, fmt.Sprintf("%s (%s): %+d file descriptors, %+d goroutines above the baseline after the evaluation returned (settled)", vc.Code, vc.How, vc.Fd, vc.Go), vc)
 	}
 	return nil
 }
@@ -588,6 +660,8 @@ func replay(c *lib.Ctx, r *runner, rd *renderer, dir string) error {
 		v.cancelAt = 1
 	case f.Case.How == "inflight":
 		v.inflight, v.long = 500*time.Microsecond, true
+	case f.Case.How == "pipefail":
+		v.pipefail = true
 	}
 	n := f.Case.N
 	if n <= 0 {
